@@ -96,6 +96,7 @@ type Sim struct {
 	// the clock woke a task: some timer was not registered with the
 	// scheduler. Such a run is inconclusive (machinery problem).
 	HiddenTimer bool
+	HiddenInfo  string
 	Quiescent   bool // the run ended because nothing could run any more
 	// ClockSkew lists extra amounts the scheduler may overshoot a deadline by
 	// when it advances the clock (clock-jump fault); nil = exact.
@@ -340,12 +341,22 @@ func (s *Sim) Run(root func()) {
 			if s.Horizon == 0 {
 				// self-check: no timer may be pending that the scheduler
 				// does not know about.
+				// (tasks that OnIdle itself woke before ending the run do not count)
+				s.mu.Lock()
+				before := map[*Task]bool{}
+				for _, t := range s.tasks {
+					if t.st == stRunnable || t.st == stRunning {
+						before[t] = true
+					}
+				}
+				s.mu.Unlock()
 				time.Sleep(1000 * time.Hour)
 				synctest.Wait()
 				s.mu.Lock()
 				for _, t := range s.tasks {
-					if t.st == stRunnable || t.st == stRunning {
+					if (t.st == stRunnable || t.st == stRunning) && !before[t] {
 						s.HiddenTimer = true
+						s.HiddenInfo += fmt.Sprintf("t%d(%s) at %s; ", t.ID, t.Name, SiteName(t.site))
 					}
 				}
 				s.mu.Unlock()
